@@ -41,7 +41,7 @@ func toNotification(host *Host) Notification {
 	// send the MACEntry name as there can be many IPv6 hosts, some with name entries not populated yet
 	return Notification{Addr: host.Addr, Online: host.Online, Manufacturer: host.MACEntry.Manufacturer,
 		DHCP4Name: host.MACEntry.DHCP4Name, MDNSName: host.MACEntry.MDNSName, SSDPName: host.MACEntry.SSDPName,
-		LLMNRName: host.LLMNRName, NBNSName: host.MACEntry.NBNSName,
+		LLMNRName: host.MACEntry.LLMNRName, NBNSName: host.MACEntry.NBNSName,
 		IsRouter: host.MACEntry.IsRouter}
 }
 
